@@ -268,6 +268,15 @@ def decoder_length(prog, cd, rep, pairs):
                 rep.ok("decoder-length", f"{fq}: decoded {K.name}s are built with the block's own {battr} (the attribute the add guard compares)", nontrivial=True)
             else:
                 rep.fail("decoder-length", mod, fq, r.stmt or r.node, f"decoded {K.name}s are built with length `{got}`, not the block's `{battr}`: decoded blocks violate the length invariant")
+        # .. and the decoded block's own count is that same header field (the add guard of a decoded block compares against it)
+        obj = un.result_obj
+        if obj is not None and battr is not None and battr in obj["attrs"] and obj["attrs"][battr] is not None:
+            gotb = canon(obj["attrs"][battr], un.ctx)
+            if gotb == f"self.{battr}":
+                rep.ok("decoder-length", f"{fq}: the decoded block's {battr} is the stored {battr}", nontrivial=True)
+            else:
+                rep.fail("decoder-length", mod, fq, obj["node"], f"the decoded block's `{battr}` is `{gotb}`, not the stored `{battr}` its tracks were decoded with: every decoded track then differs in length from the block "
+                         "(right-length tracks are refused, wrong-length ones accepted)", construct=f"{fq} block {battr}")
     rep.floor("decoder-length", n, 3)
 
 
